@@ -9,12 +9,14 @@ def run(cx):
     S.layout_refusals(cx)
     S.decode_callargs(cx)
     S.header_fields(cx)
+    S.propagation(cx)
     cx.decided += [
         'each of the three np.memmap calls maps the file object itself (bounded by the real file size), read-only, at the DATA begin offset, with the shape that the dominating size check compared against (end+1-begin | end-begin)',
         'the three size checks are alike',
         'TEXT-like segments: the read asks for the full declared length and a shorter result (beyond the one-byte convention) is refused before anything looks at the bytes',
         'layout keywords ($PAR, $TOT, $PnB, $PnR, $MODE, $DATATYPE, $BYTEORD, $NEXTDATA, segment offsets) are read with raising lookups and raising int()/float()',
         'HEADER offsets are parsed by raising int() in the documented order',
+        'no HEADER / TEXT / supplemental TEXT / DATA read sits in a try with a handler (only ANALYSIS is tolerant): their errors end the load',
     ]
     cx.not_decided += ['what np.memmap does on a short file (trusted: raises)', 'values after a consistent-but-wrong $TOT x $PAR factorisation',
                        'a HEADER cut inside a numeric field that still parses as a shorter number (argued in DESIGN.md: the following reads fail)']
